@@ -25,3 +25,4 @@ for l in open('/verif/properties.jsonl'):
         open(sys.argv[2]+'/PROPERTY.txt','w').write(f"Property {d['id']}: {d['title']}\n\nStatement: {d['statement']}\n\nQuantified over: {d['quantifier']['text']}\n\nWhy the existing tests cannot settle it: {d['why_tests_cant']}\n\nCode anchors (where the mechanism lives): {json.dumps(d['anchors'],indent=1)}\n")
 PY
 echo $D
+sed "s|{DIR}|$D|g" /verif/docs/BREAKER_PROMPT.txt > $D/TASK.md
